@@ -145,7 +145,7 @@ def run(ctx):
                 ctx.ob('C30-D4', f2.name, 'add_provenance(MIN_XMP, ..)', 'paired with a site that updates the existing XMP (fresh packet only when none exists)', bool(others), site=loc(t.get('span')))
             # the value argument is the caller's reference
             v = T.op_term(f2, t['args'][1])
-            ctx.ob('C30-D3', f2.name, 'add_provenance value', 'the caller\'s reference (embed_ref.Xmp.0 / url parameter)', re.search(r'embed_ref\.Xmp\.0|^url$|manifest_uri', v) is not None, detail=v[:100], site=loc(t.get('span')), nontrivial=False)
+            ctx.ob('C30-D3', f2.name, 'add_provenance value', 'exactly the caller\'s reference, not transformed (add_xmp_key does the escaping)', re.fullmatch(r'embed_ref\.Xmp\.0|url|manifest_uri', v) is not None, detail=v[:100], site=loc(t.get('span')))
     # add_xmp_key preserves what it does not rewrite: the catch-all arm writes the event unchanged and other attributes are copied
     ext = [bi for bi, t in w.calls() if t['fd'].endswith('::extend_attributes')]
     we = [bi for bi, t in w.calls() if t['fd'].endswith('::write_event')]
